@@ -189,6 +189,68 @@ pub fn run_case(tape: &mut Tape, _tier: Tier, _p: &CaseParams) -> CaseOutcome {
     crate::checks::worlds::add_remote_lockfile(tape, &mut w);
     w
   };
+  // asset imports (ensure_cached path) of checksummed remote urls, and
+  // lockfile-seeded redirects onto checksummed targets
+  if world.registry.packages.is_empty() {
+    let remotes: Vec<String> = world
+      .remote
+      .iter()
+      .filter(|(u, e)| {
+        u.starts_with("http") && matches!(e, Entry::Module { final_url: None, .. })
+      })
+      .map(|(u, _)| u.clone())
+      .collect();
+    if !remotes.is_empty() && tape.draw(Stream::World, 2) == 1 {
+      let mut d = ModuleDesc::new(format!("{}assets.ts", H_A), Lang::Ts);
+      let n = tape.range(Stream::World, 1, 2);
+      for _ in 0..n {
+        let t = remotes[tape.draw(Stream::World, remotes.len() as u32) as usize].clone();
+        if d.items.iter().any(|i| i.spec == t) {
+          continue;
+        }
+        let mut it = Item::new(
+          *tape.pick(Stream::World, &[Form::Default, Form::Dynamic]),
+          t.clone(),
+        );
+        it.attr = Some(tape.pick(Stream::World, &["text", "bytes", "css"]).to_string());
+        d.items.push(it);
+        // make sure the lockfile knows a checksum for it (right or wrong)
+        if let Some(Entry::Module { bytes, .. }) = world.remote.get(&t) {
+          let sum = if tape.draw(Stream::World, 3) == 2 {
+            "2".repeat(64)
+          } else {
+            sha256_hex(bytes)
+          };
+          world.lockfile.remote.entry(t).or_insert(sum);
+        }
+      }
+      world.roots.push(d.url.clone());
+      world.add_desc(d);
+    }
+    let redirs: Vec<(String, String)> = world
+      .remote
+      .iter()
+      .filter_map(|(u, e)| match e {
+        Entry::Redirect(t) if remotes.contains(t) => Some((u.clone(), t.clone())),
+        _ => None,
+      })
+      .collect();
+    for (u, t) in redirs {
+      if tape.draw(Stream::World, 2) == 1 {
+        world.lockfile.redirects.insert(u.clone(), t.clone());
+        if let Some(Entry::Module { bytes, .. }) = world.remote.get(&t) {
+          world
+            .lockfile
+            .remote
+            .entry(t)
+            .or_insert_with(|| sha256_hex(bytes));
+        }
+        if !world.roots.contains(&u) && tape.draw(Stream::World, 2) == 1 {
+          world.roots.push(u);
+        }
+      }
+    }
+  }
   // sometimes one remote module is served as UTF-16 with a charset header
   if tape.draw(Stream::World, 6) == 5 {
     let cands: Vec<String> = world
@@ -228,6 +290,12 @@ pub fn run_case(tape: &mut Tape, _tier: Tier, _p: &CaseParams) -> CaseOutcome {
   tamper(tape, &mut world);
   let mut sem = SemOpts::draw(tape);
   sem.with_locker = true;
+  // asset imports are only loaded when their attribute type is enabled
+  if tape.draw(Stream::Options, 3) != 0 {
+    sem.unstable_bytes = true;
+    sem.unstable_text = true;
+    sem.unstable_css = true;
+  }
   sem.prefer_cached_jsr = !world.registry.packages.is_empty()
     && tape.draw(Stream::Options, 4) == 3;
   let sched = SchedOpts::draw(tape);
